@@ -71,6 +71,7 @@ N_HIST = {"quick": 1000, "thorough": 40000}
 OPS = {"+": operator.add, "-": operator.sub, "*": operator.mul, "/": operator.truediv, "**": operator.pow}
 CONSTS = [2, 0.5, -1, 3, 0, 1.5, -2.0, 1, 2.0, -0.5]
 PERT = 1e-12
+DEBUG_SKIP_REPLACEMENT = False     # triage aid: keep the dataset in its first-phase state
 
 
 def cases(tier, seed):
@@ -113,17 +114,20 @@ def _f_max2(a, b):
 # function): the statement promises the expression "whatever the broadcasting structure of the inputs", so glue has to
 # hand over inputs of one common shape.
 def _f_zip2(a, b):
+    a, b = np.asarray(a), np.asarray(b)     # a dask-backed component hands over a dask array for whole-dataset reads
     assert a.shape == b.shape, (a.shape, b.shape)
     return np.array([x + 2 * y for x, y in zip(a.ravel(), b.ravel())], dtype=float).reshape(a.shape)
 
 
 def _f_fromiter2(a, b):
+    a, b = np.asarray(a), np.asarray(b)
     if a.size != b.size:
         raise ValueError("inputs of different size: %r %r" % (a.shape, b.shape))
     return np.fromiter((x * y for x, y in zip(a.flat, b.flat)), dtype=float, count=a.size).reshape(a.shape)
 
 
 def _f_emptylike3(a, b, c):
+    a, b, c = np.asarray(a), np.asarray(b), np.asarray(c)
     out = np.empty_like(a, dtype=float)
     for idx in np.ndindex(a.shape):
         out[idx] = float(a[idx]) - float(b[idx]) + float(c[idx])
@@ -131,6 +135,7 @@ def _f_emptylike3(a, b, c):
 
 
 def _f_assert2(a, b):
+    a, b = np.asarray(a), np.asarray(b)
     assert a.shape == b.shape, (a.shape, b.shape)
     return a - b * 0.5
 
@@ -241,7 +246,7 @@ def ev(t, val, eps, strong=False):
     a = ev(t[1], val, eps, strong)
     b = ev(t[2], val, eps, strong)
     try:
-        if k == "**" and (isinstance(a, np.ndarray) or isinstance(b, np.ndarray)):
+        if k == "**" and (isinstance(a, (np.ndarray, np.generic)) or isinstance(b, (np.ndarray, np.generic))):
             # numpy evaluates x ** y through different loops depending on how the exponent is laid out: a Python
             # scalar or a stride-0 exponent equal to 0.5 / 2 / -1 is turned into sqrt / square / reciprocal, anything
             # else goes through pow().  sqrt and pow differ for -inf and -0.0 (sqrt(-inf) = nan, pow(-inf, .5) = inf).
@@ -255,7 +260,12 @@ def ev(t, val, eps, strong=False):
                 b = np.asarray(b, dtype=np.result_type(np.asarray(a).dtype, b))
             A, B = np.broadcast_arrays(np.asarray(a), np.asarray(b))
             A, B = np.array(A), np.array(B)
-            r = np.power(A, B)
+            # one extra element with a different exponent: numpy takes its sqrt / square shortcut inside the loop
+            # whenever the exponent does not vary along it (also true of 0-d and one-element arrays), the padded
+            # call is guaranteed to go through pow()
+            Ap = np.concatenate([A.ravel(), np.ones(1, dtype=A.dtype)])
+            Bp = np.concatenate([B.ravel(), np.asarray([3 if B.dtype.kind in "biu" else 0.123]).astype(B.dtype)])
+            r = np.power(Ap, Bp)[:-1].reshape(A.shape)
             if eps:
                 # whether numpy would take the sqrt path is decided by the exponent glue really sees, i.e. the
                 # unperturbed one (2.0 ** -1 is exactly 0.5, its perturbed value is not)
@@ -268,7 +278,16 @@ def ev(t, val, eps, strong=False):
     except (ValueError, ZeroDivisionError, OverflowError, TypeError) as e:
         raise RefRaises(exc_name(e))
     if k == "**" and eps:
-        r = r * (1.0 + eps)
+        if abs(eps) < 1e-20:
+            # |eps| = n * 1e-30 encodes "move every pow result by n units in the last place of its own dtype"
+            steps = int(round(eps / 1e-30))
+            r = np.asarray(r)
+            if r.dtype.kind == "f":
+                target = np.asarray(np.inf if steps > 0 else -np.inf, dtype=r.dtype)
+                for _ in range(abs(steps)):
+                    r = np.nextafter(r, target)
+        else:
+            r = r * (1.0 + eps)
     return r
 
 
@@ -287,7 +306,10 @@ class Model:
         widened to int64 / float64 ("mathematical" value); up=False: evaluated in their own dtype with numpy's rules
         (wrap-around, float32 rounding).  Which of the two an implementation produces depends on how constants are
         typed, which the statement does not fix: compare() leaves out the elements on which the readings disagree.
-        up="strong": stored dtype, constants of arithmetic nodes typed as numpy arrays (a third reading)."""
+        up="strong": stored dtype, constants of arithmetic nodes typed as numpy arrays (a third reading).
+        up="float": every integer input read as float64 - differs from the integer readings only where int64
+        arithmetic wraps around (the wrapped value is meaningless, and glue's scalar path for 0-d views of parsed
+        commands computes in float there): such elements are left out as well."""
         key = (nid, eps, up)
         if key not in self._cache:
             n = self.nodes[nid]
@@ -295,6 +317,8 @@ class Model:
                 v = n.full
                 if up is True and n.narrow:
                     v = v.astype(np.float64 if v.dtype.kind == "f" else np.int64)
+                elif up == "float" and v.dtype.kind in "biu":
+                    v = v.astype(np.float64)
             else:
                 with np.errstate(all="ignore"):
                     v = ev(n.desc, lambda m, e: self.val(m, e, up), eps, strong=(up == "strong"))
@@ -309,10 +333,70 @@ class Model:
             self._cache[key] = v
         return self._cache[key]
 
-    def val_desc(self, desc, eps=0.0):
+    def val_under(self, nid, eps, up, view, wv, memo):
+        """Reference value of nid *under a view*, evaluated elementwise on the viewed inputs; the world inputs are the
+        values glue serves for this very view (wv: nid -> array).  A world attribute read with a view agrees with the
+        viewed whole read only to ~1e-16 relative (matrix products over differently shaped operands), and a last-place
+        difference of an input can decide whether `(-0.5) ** (w * W1)` is nan; "the expression applied to the current
+        values of its inputs" therefore takes the inputs as they are served (their agreement with the whole read is
+        checked separately, and is C15's business)."""
+        key = (nid, eps, up)
+        if key in memo:
+            return memo[key]
+        n = self.nodes[nid]
+        if n.desc is None:
+            v = np.asarray(wv[nid]) if n.kind == "world" else n.full[Ellipsis if view is None else view]
+            v = np.asarray(v)
+            if up is True and n.narrow:
+                v = v.astype(np.float64 if v.dtype.kind == "f" else np.int64)
+            elif up == "float" and v.dtype.kind in "biu":
+                v = v.astype(np.float64)
+        else:
+            with np.errstate(all="ignore"):
+                v = ev(n.desc, lambda m, e: self.val_under(m, e, up, view, wv, memo), eps, strong=(up == "strong"))
+            v = np.asarray(v)
+            if v.dtype.kind not in "biuf":
+                raise RefRaises("non-real reference (%s)" % v.dtype)
+            if n.desc[0] == "parsed" and not leaves(n.desc) and v.dtype.kind in "biu":
+                v = v.astype(float)
+            v = np.broadcast_to(v, np.broadcast_to(0, self.shape)[Ellipsis if view is None else view].shape)
+        memo[key] = v
+        return v
+
+    def references(self, nid, view, fl, wv=None):
+        """(r0, r1, alternates) of nid under `view`; wv given -> evaluated on the viewed inputs (see val_under)."""
+        narrow_pow = fl["has_narrow_input"] and fl["has_pow"]
+        if wv is None:
+            ix = Ellipsis if view is None else view
+            get = lambda eps, up: self.val(nid, eps, up)[ix]      # noqa: E731
+        else:
+            memo = {}
+            get = lambda eps, up: self.val_under(nid, eps, up, view, wv, memo)      # noqa: E731
+        r0, r1 = get(0.0, True), get(PERT, True)
+        alts = []
+        if fl["has_narrow_input"]:
+            alts += [get(0.0, False), get(0.0, "strong")]
+            if narrow_pow:
+                # float32 pow results differ in the last place between numpy's scalar, strided and SIMD loops, and
+                # that can decide integer-ness of an exponent: also the native readings with every pow result moved
+                # by a few float32 ulps either way
+                for e in (3e-7, -3e-7, 1e-30, -1e-30, 2e-30, -2e-30):
+                    for mode in (False, "strong"):
+                        try:
+                            alts.append(get(e, mode))
+                        except RefRaises:
+                            pass
+        if fl["has_int_input"]:
+            try:
+                alts.append(get(0.0, "float"))
+            except RefRaises:
+                pass
+        return r0, r1, (alts or None)
+
+    def val_desc(self, desc, eps=0.0, up=True):
         """Reference value of a descriptor that is not stored as a node."""
         with np.errstate(all="ignore"):
-            v = np.asarray(ev(desc, lambda m, e: self.val(m, e, True), eps))
+            v = np.asarray(ev(desc, lambda m, e: self.val(m, e, up), eps))
         if v.dtype.kind not in "biuf":
             raise RefRaises("non-real reference (%s)" % v.dtype)
         return np.broadcast_to(v, self.shape)
@@ -356,7 +440,22 @@ class Model:
                 "has_stored_input": bool(allin & {"stored_float", "stored_int"}),
                 "chain_has_binary_pow": any(d[0] in OPS and has_pow(d) for d in ch),
                 "has_pow": any(has_pow(d) for d in ch),
-                "has_narrow_input": any(self.nodes[x].narrow for d in ch for x in leaves(d))}
+                "has_narrow_input": any(self.nodes[x].narrow for d in ch for x in leaves(d)),
+                "has_int_input": any(self.nodes[x].desc is None and self.nodes[x].full.dtype.kind in "biu"
+                                     for d in ch for x in leaves(d))}
+
+    def alternates(self, nid, fl=None):
+        """Other admissible readings of nid (dtype semantics the statement leaves open), or None."""
+        fl = fl or self.flags(nid)
+        alts = []
+        if fl["has_narrow_input"]:
+            alts += [self.val(nid, 0.0, up=False), self.val(nid, 0.0, up="strong")]
+        if fl["has_int_input"]:
+            try:
+                alts.append(self.val(nid, 0.0, up="float"))
+            except RefRaises:
+                pass
+        return alts or None
 
 
 UNSTABLE = [0]    # elements left out because the reference itself is unstable (tallied per case)
@@ -692,26 +791,30 @@ def run_expr(ctx, case):
     def check_reads(nid, lk, cid, link, desc, view_items, phase):
         """Read the derived attribute nid with the given (index, (kind, view)) items and compare with the model."""
         try:
-            r0full = model.val(nid, 0.0)
-            r1full = model.val(nid, PERT)
+            model.val(nid, 0.0)
+            model.val(nid, PERT)
         except RefRaises:
             return False
         fl = model.flags(nid)
-        nat = None
-        if fl["has_narrow_input"]:
-            try:
-                nat = [model.val(nid, 0.0, up=False), model.val(nid, 0.0, up="strong")]
-            except RefRaises:
-                ctx.count("skipped_native_dtype_reference_raises")
-                return True
+        world_in = sorted({x for c in model.chain(nid) for x in leaves(model.nodes[c].desc) if model.nodes[x].kind == "world"})
+        try:
+            model.references(nid, None, fl)
+        except RefRaises:
+            ctx.count("skipped_native_dtype_reference_raises")
+            return True
         kinds_desc = [desc, {m: model.nodes[m].kind for m in leaves(desc)}]
         for vi, (vk, view) in view_items:
             if not inputs_consistent(nid, vi, view):
                 ctx.count("read_skipped_input_view_inconsistent(C04/C15)")
                 continue
-            exp0 = r0full[vidx(view)]
-            exp1 = r1full[vidx(view)]
-            expn = None if nat is None else [x[vidx(view)] for x in nat]
+            try:
+                wv = None
+                if world_in:
+                    wv = {m: np.asarray(d[model.nodes[m].cid] if view is None else d[model.nodes[m].cid, view]) for m in world_in}
+                exp0, exp1, expn = model.references(nid, view, fl, wv)
+            except RefRaises:
+                ctx.count("skipped_reference_raises_under_view")
+                continue
             route = rng.choice(["getitem", "getitem", "get_data", "flat", "link", "component"])
             try:
                 if route == "link" and lk == "binary" and link is not None:
@@ -740,6 +843,7 @@ def run_expr(ctx, case):
                 sig.update(view_flags(view, exp0))
                 sig.pop("has_pow")
                 sig.pop("has_stored_input")
+                sig.pop("has_int_input")
                 ctx.violation(sig, {"shape": list(shape), "coords": ck, "desc": desc, "view": describe_view(view),
                                     "route": route, "got": got, "expected": exp0,
                                     "chain": {m: model.nodes[m].desc for m in model.chain(nid)},
@@ -754,8 +858,8 @@ def run_expr(ctx, case):
         op = rng.choice(sorted(OPS))
         for desc in ([op, ["c", c], ["in", x]], [op, ["in", x], ["c", c]]):
             try:
-                r0 = model.val_desc(desc, 0.0)
-                r1 = model.val_desc(desc, PERT)
+                model.val_desc(desc, 0.0)
+                model.val_desc(desc, PERT)
             except RefRaises:
                 ctx.count("reference_raises_out_of_domain")
                 continue
@@ -765,15 +869,24 @@ def run_expr(ctx, case):
                 vk, view = views[vi]
                 node = model.nodes[x]
                 try:
-                    gi = d[node.cid] if view is None else d[node.cid, view]
+                    gi = np.asarray(d[node.cid] if view is None else d[node.cid, view])
                     if compare(gi, node.full[vidx(view)], node.full[vidx(view)]) is not None:
                         raise ValueError
                 except Exception:
                     ctx.count("read_skipped_input_view_inconsistent(C04/C15)")
                     continue
+                # the reference is evaluated on the input as served under this view (see Model.val_under)
+                try:
+                    with np.errstate(all="ignore"):
+                        e0 = np.asarray(ev(desc, lambda m, e: gi, 0.0))
+                        e1 = np.asarray(ev(desc, lambda m, e: gi, PERT))
+                        ef = [np.asarray(ev(desc, lambda m, e: gi.astype(float), 0.0))] if gi.dtype.kind in "biu" else None
+                except RefRaises:
+                    ctx.count("skipped_reference_raises_under_view")
+                    continue
                 try:
                     got = d[link] if view is None else d[link, view]
-                    how = compare(got, r0[vidx(view)], r1[vidx(view)])
+                    how = compare(got, e0, e1, ef)
                 except Exception as e:   # noqa
                     got = repr(e)[:200]
                     how = "exception:" + exc_name(e)
@@ -783,9 +896,9 @@ def run_expr(ctx, case):
                 if how:
                     sig = {"kind": "const_op_broadcast_input_mismatch", "how": how, "const_on_left": left, "op": desc[0],
                            "input_kind": node.kind, "const_type": type(c).__name__, "view_kind": vk}
-                    sig.update(view_flags(view, r0[vidx(view)]))
+                    sig.update(view_flags(view, e0))
                     ctx.violation(sig, {"shape": list(shape), "coords": ck, "desc": desc, "view": describe_view(view),
-                                        "got": got, "expected": r0[vidx(view)], "input": node.full})
+                                        "got": got, "expected": e0, "input": node.full})
 
     n_derived = 8
     added = []
@@ -875,14 +988,17 @@ def run_expr(ctx, case):
             sub = d.new_subset()
             sub.subset_state = model.nodes["w w"].cid > float(np.median(model.nodes["w w"].full))
             mask = model.nodes["w w"].full > float(np.median(model.nodes["w w"].full))
-            r0, r1 = model.val(nid, 0.0), model.val(nid, PERT)
             fl = model.flags(nid)
-            nat = [model.val(nid, 0.0, up=False), model.val(nid, 0.0, up="strong")] if fl["has_narrow_input"] else None
-            ok_in = all(inputs_consistent(nid, "subset", tuple(np.nonzero(mask))) for _ in (0,))
+            sview = tuple(np.nonzero(mask))
+            ok_in = inputs_consistent(nid, "subset", sview)
             if ok_in:
+                world_in = sorted({x for c in model.chain(nid) for x in leaves(model.nodes[c].desc)
+                                   if model.nodes[x].kind == "world"})
+                wv = {m: np.asarray(d[model.nodes[m].cid, sview]) for m in world_in} if world_in else None
+                r0m, r1m, natm = model.references(nid, sview, fl, wv)
                 try:
                     got = sub[cid]
-                    how = compare(got, r0[mask], r1[mask], None if nat is None else [x[mask] for x in nat])
+                    how = compare(got, r0m, r1m, natm)
                 except Exception as e:   # noqa
                     got = repr(e)[:200]
                     how = "exception:" + exc_name(e)
@@ -890,13 +1006,13 @@ def run_expr(ctx, case):
                 ctx.count("value_compared_through_subset")
                 if how:
                     sig = {"kind": "derived_value_mismatch", "how": how, "link_kind": lk, "view_kind": "subset", "phase": "subset"}
-                    sig.update({k: v for k, v in fl.items() if k not in ("has_pow", "has_stored_input")})
-                    ctx.violation(sig, {"shape": list(shape), "desc": desc, "got": got, "expected": r0[mask]})
+                    sig.update({k: v for k, v in fl.items() if k not in ("has_pow", "has_stored_input", "has_int_input")})
+                    ctx.violation(sig, {"shape": list(shape), "desc": desc, "got": got, "expected": r0m})
         except RefRaises:
             pass
 
     # ---- an input is replaced under its existing ComponentID between two reads of the derived attributes
-    for rep_i in range(2):
+    for rep_i in range(0 if DEBUG_SKIP_REPLACEMENT else 2):
         target = rng.choice(["v", "i", "w w", "v2", "w"])
         node = model.nodes[target]
         how_rep = rng.choice(["update_components", "add_component"])
@@ -1022,7 +1138,13 @@ def run_hist(ctx, case):
                                                                                     "all_int", "slice_tuple_short"]))
             try:
                 g = d[node.cid] if view is None else d[node.cid, view]
-                how = compare(g, r0[vidx(view)], r1[vidx(view)])
+                alts = None
+                if node.desc is not None:
+                    try:
+                        alts = model.alternates(n)
+                    except RefRaises:
+                        alts = None
+                how = compare(g, r0[vidx(view)], r1[vidx(view)], None if alts is None else [x[vidx(view)] for x in alts])
             except Exception as e:   # noqa
                 how = "exception:" + exc_name(e)
                 g = repr(e)[:200]
@@ -1357,7 +1479,13 @@ def run_hist(ctx, case):
                     continue
                 is_dependant = n != target and n in model.closure(target)
                 try:
-                    how = compare(d[nn.cid], r0, r1)
+                    alts = None
+                    if nn.desc is not None:
+                        try:
+                            alts = model.alternates(n)
+                        except RefRaises:
+                            alts = None
+                    how = compare(d[nn.cid], r0, r1, alts)
                 except Exception as e:   # noqa
                     how = "exception:" + exc_name(e)
                 ctx.evaluation()
